@@ -179,7 +179,7 @@ def convert(execution) -> dict:
             else:
                 name = e["err"].replace("-after-apply", "")
                 if e["err"].endswith("-after-apply"):
-                    raise Unsupported("apply-then-fail faults are outside Durable.tla")
+                    pending_call["o"] = "applied"       # the backend applied the batch, the answer was lost
                 pending_call["ok"] = False
                 pending_call["fcls"] = "retriable" if FAULTS[name][3] else "fatal"
                 out.append(pending_call)
